@@ -153,8 +153,9 @@ OneSchemaKw == <<"additionalProperties", "additionalItems", "items", "contains",
                  "else", "unevaluatedProperties", "unevaluatedItems">>
 SeqSchemaKw == <<"allOf", "anyOf", "oneOf", "items", "prefixItems">>
 MapSchemaKw == <<"properties", "$defs", "definitions", "dependentSchemas", "dependencies">>
-\* "definitions" stays a schema container in 2019-09/2020-12 (meta-schemas keep it for compatibility)
-IsContainerKw(d, k) == IF k = "definitions" THEN TRUE ELSE Active(d, k)
+\* "definitions" is a keyword up to Draft 7 only.  From 2019-09 on it is "no longer an official keyword" (meta-schema
+\* $comment); a reference into it points at a possible non-schema, which C 2020-12 9.4.2 leaves undefined.
+IsContainerKw(d, k) == IF k = "definitions" THEN Rank(d) <= 7 ELSE Active(d, k)
 
 RECURSIVE Subs(_, _)
 Subs(d, s) ==
@@ -380,9 +381,20 @@ Valid(d, root, v) == Ev(d, root, root, v, {}).st
 
 -----------------------------------------------------------------------------
 (* Every reference that occurs in a schema position resolves to a schema.   *)
+(* Up to Draft 7 the siblings of "$ref" "MUST be ignored" (C d7 8.3): a     *)
+(* reference that points INTO such an ignored sibling (other than the       *)
+(* definitions container) has no defined target and is outside the domain.  *)
+RefTargets(d, root) ==
+  { ResolveRef(d, root, x[2][S("$ref")][2]) : x \in { y \in Subs(d, root) : y[1] = "obj" /\ S("$ref") \in DOMAIN y[2] /\ y[2][S("$ref")][1] = "str" } }
+IgnoredInside(d, x) ==     \* subschemas below the ignored siblings of a "$ref" object
+  UNION { Subs(d, z) : z \in (Subs(d, JObj([k \in (DOMAIN x[2]) \ {S("definitions"), S("$ref")} |-> x[2][k]]))
+                               \ {JObj([k \in (DOMAIN x[2]) \ {S("definitions"), S("$ref")} |-> x[2][k]])}) }
 RefsResolve(d, root) ==
-  \A x \in Subs(d, root) :
-     (x[1] = "obj" /\ S("$ref") \in DOMAIN x[2]) =>
-        /\ x[2][S("$ref")][1] = "str"
-        /\ LET t == ResolveRef(d, root, x[2][S("$ref")][2]) IN IsOk(t) /\ t[2] \in Subs(d, root)
+  /\ \A x \in Subs(d, root) :
+       (x[1] = "obj" /\ S("$ref") \in DOMAIN x[2]) =>
+          /\ x[2][S("$ref")][1] = "str"
+          /\ LET t == ResolveRef(d, root, x[2][S("$ref")][2]) IN IsOk(t) /\ t[2] \in Subs(d, root)
+  /\ Rank(d) <= 7 =>
+       \A x \in Subs(d, root) :
+         (x[1] = "obj" /\ S("$ref") \in DOMAIN x[2]) => \A t \in RefTargets(d, root) : IsOk(t) => t[2] \notin IgnoredInside(d, x)
 =============================================================================
